@@ -18,6 +18,13 @@
 (*                  still the current one (followc) before each read of   *)
 (*                  the leader connection instead of per command under    *)
 (*                  the lock ("percmd", as coded)                          *)
+(*   ShrinkCutsCopying = FALSE: the leader registers a replication         *)
+(*                  connection (aofconnM) only AFTER the backlog copy; an  *)
+(*                  AOFSHRINK that swaps the files during the copy then    *)
+(*                  does not cut it: the follower reads the old, unlinked  *)
+(*                  file to its end, reports caught-up and never sees what *)
+(*                  the leader logs afterwards (as coded: TRUE, registered *)
+(*                  before the copy)                                       *)
 (* Re-pointing (a second FOLLOW, to another leader, without a restart):    *)
 (* the session of the previous leader may still sit in a read on its idle  *)
 (* connection; whatever that leader logs later must not reach the follower.*)
@@ -32,6 +39,7 @@ CONSTANTS CmdSz, W, MaxLeader, MaxFaults,
           SmallNoCheck, ZeroNoReset, IntactShortcut,
           MaxRefollow,     \* how often the follower is re-pointed to the other leader
           StaleCheck,      \* "percmd" (as coded) | "atread"
+          ShrinkCutsCopying, \* TRUE (as coded): AOFSHRINK also cuts a follower that is still in its backlog copy
           OLog             \* what the other leader holds initially
 
 \* commands are integers: 1, 2 = set to 1 / 2; 3 = "inc", not idempotent (RENAMENX, NX, append-JSET ...);
@@ -40,9 +48,12 @@ Cmd == {1, 2, 3}
 Fx == 4
 \* llog: the log of the leader the follower is configured to follow; olog: the log of the other leader;
 \* stale: the session of the previous leader, blocked in a read: next = index in olog of the command it would receive
-VARIABLES llog, flog, fmem, faofsz, conn, pos, sent, lsizeAtConnect, caughtUp, faults, hist, meta, olog, stale, refollows
-vars == <<llog, flog, fmem, faofsz, conn, pos, sent, lsizeAtConnect, caughtUp, faults, hist, meta, olog, stale, refollows>>
+\* frozen: the old log file a streaming connection keeps reading after a shrink that did not cut it ([on, log])
+VARIABLES llog, flog, fmem, faofsz, conn, pos, sent, lsizeAtConnect, caughtUp, faults, hist, meta, olog, stale, refollows, frozen
+vars == <<llog, flog, fmem, faofsz, conn, pos, sent, lsizeAtConnect, caughtUp, faults, hist, meta, olog, stale, refollows, frozen>>
 re == <<olog, stale, refollows>>
+Live == [on |-> FALSE, log |-> <<>>]
+Source == IF frozen.on THEN frozen.log ELSE llog          \* what the current stream reads
 NoStale == [alive |-> FALSE, next |-> 0]
 
 Apply(m, c) == CASE c = 1 -> 1 [] c = 2 -> 2 [] c = 3 -> m + 10 [] c = Fx -> 7 [] c >= 100 -> c - 100
@@ -70,7 +81,7 @@ Init == /\ llog \in Seqs(MaxLeader)
         /\ fmem = Replay(0, flog) /\ faofsz = Sz(flog)
         /\ conn = "down" /\ pos = 0 /\ sent = 0 /\ lsizeAtConnect = 0 /\ caughtUp = FALSE /\ faults = 0
         /\ hist = <<>>
-        /\ olog = OLog /\ stale = NoStale /\ refollows = 0
+        /\ olog = OLog /\ stale = NoStale /\ refollows = 0 /\ frozen = Live
 
 FullReset == /\ flog' = <<>> /\ fmem' = 0 /\ faofsz' = 0
 CheckSome ==
@@ -87,16 +98,17 @@ CheckSome ==
                THEN pos' = b /\ UNCHANGED <<flog, fmem, faofsz>>
                ELSE /\ pos' = b /\ flog' = SubSeq(flog, 1, b \div CmdSz)
                     /\ fmem' = Replay(0, SubSeq(flog, 1, b \div CmdSz)) /\ faofsz' = b
+  /\ frozen' = Live
   /\ UNCHANGED <<llog, faults, hist, meta, re>>
 RequestAOF == /\ conn = "checked" /\ pos <= Sz(llog)
               /\ conn' = "streaming" /\ caughtUp' = (pos >= lsizeAtConnect)
-              /\ UNCHANGED <<llog, flog, fmem, faofsz, pos, sent, lsizeAtConnect, faults, hist, meta, re>>
+              /\ UNCHANGED <<llog, flog, fmem, faofsz, pos, sent, lsizeAtConnect, faults, hist, meta, re, frozen>>
 Stream == /\ conn = "streaming"
           /\ LET i == (pos \div CmdSz) + sent + 1 IN
-             /\ i <= Len(llog) /\ fmem' = Apply(fmem, llog[i]) /\ flog' = Append(flog, llog[i])
+             /\ i <= Len(Source) /\ fmem' = Apply(fmem, Source[i]) /\ flog' = Append(flog, Source[i])
              /\ faofsz' = faofsz + CmdSz /\ sent' = sent + 1
              /\ caughtUp' = (caughtUp \/ faofsz + CmdSz >= lsizeAtConnect)
-          /\ UNCHANGED <<llog, conn, pos, lsizeAtConnect, faults, hist, meta, re>>
+          /\ UNCHANGED <<llog, conn, pos, lsizeAtConnect, faults, hist, meta, re, frozen>>
 \* the assumption under which a checksum PROBE can stand for a comparison (module header): once the follower's log differs
 \* from the leader's, every later position differs too.  A leader write that would make the logs agree again behind
 \* a difference is outside the model.
@@ -104,29 +116,34 @@ Diverged == \E j \in 1..Len(llog) : j <= Len(flog) /\ flog[j] # llog[j]
 KeepsDivergenceMonotone(c) == (Diverged /\ Len(llog) < Len(flog)) => c # flog[Len(llog) + 1]
 LWrite(c) == /\ Len(llog) < MaxLeader /\ KeepsDivergenceMonotone(c) /\ llog' = Append(llog, c)
              /\ hist' = Append(hist, "lwrite")
-             /\ UNCHANGED <<flog, fmem, faofsz, conn, pos, sent, lsizeAtConnect, caughtUp, faults, meta, re>>
+             /\ UNCHANGED <<flog, fmem, faofsz, conn, pos, sent, lsizeAtConnect, caughtUp, faults, meta, re, frozen>>
 ConnDrop == /\ conn # "down" /\ faults < MaxFaults /\ faults' = faults + 1
-            /\ conn' = "down" /\ caughtUp' = FALSE /\ hist' = Append(hist, "drop")
+            /\ conn' = "down" /\ caughtUp' = FALSE /\ hist' = Append(hist, "drop") /\ frozen' = Live
             /\ UNCHANGED <<llog, flog, fmem, faofsz, pos, sent, lsizeAtConnect, meta, re>>
 FRestart == /\ faults < MaxFaults /\ faults' = faults + 1 /\ conn' = "down" /\ caughtUp' = FALSE
             /\ fmem' = Replay(0, flog) /\ faofsz' = Sz(flog) /\ hist' = Append(hist, "frestart")
-            /\ stale' = NoStale                      \* a restart ends every session of the process
+            /\ stale' = NoStale /\ frozen' = Live   \* a restart ends every session of the process
             /\ UNCHANGED <<llog, flog, pos, sent, lsizeAtConnect, meta, olog, refollows>>
 \* AOFSHRINK on the leader: its log becomes an equivalent shorter one; replication connections are cut
+\* (mid-copy: the follower is streaming the backlog and has not reached the end of the log yet)
+MidCopy == conn = "streaming" /\ ~frozen.on /\ (pos \div CmdSz) + sent < Len(llog)
 LShrink == /\ faults < MaxFaults /\ faults' = faults + 1 /\ Len(llog) > 1
            /\ llog' = <<100 + Replay(0, llog)>>
-           /\ conn' = "down" /\ caughtUp' = FALSE /\ hist' = Append(hist, "lshrink")
+           /\ IF MidCopy /\ ~ShrinkCutsCopying
+              THEN /\ frozen' = [on |-> TRUE, log |-> llog] /\ UNCHANGED <<conn, caughtUp>>      \* keeps reading the old file
+              ELSE /\ conn' = "down" /\ caughtUp' = FALSE /\ frozen' = Live
+           /\ hist' = Append(hist, IF MidCopy THEN "lshrinkmid" ELSE "lshrink")
            /\ UNCHANGED <<flog, fmem, faofsz, pos, sent, lsizeAtConnect, meta, re>>
 \* FOLLOW otherhost (cmdFollow: followc + 1, a new session is started; the old one is not told)
 Refollow == /\ refollows < MaxRefollow /\ refollows' = refollows + 1
             /\ llog' = olog /\ olog' = llog
             /\ stale' = IF conn = "streaming" THEN [alive |-> TRUE, next |-> (pos \div CmdSz) + sent + 1] ELSE NoStale
-            /\ conn' = "down" /\ caughtUp' = FALSE /\ hist' = Append(hist, "refollow")
+            /\ conn' = "down" /\ caughtUp' = FALSE /\ hist' = Append(hist, "refollow") /\ frozen' = Live
             /\ UNCHANGED <<flog, fmem, faofsz, pos, sent, lsizeAtConnect, faults, meta>>
 \* the leader that is no longer followed keeps writing
 OWrite(c) == /\ refollows > 0 /\ Len(olog) < MaxLeader /\ olog' = Append(olog, c)
              /\ hist' = Append(hist, "owrite")
-             /\ UNCHANGED <<llog, flog, fmem, faofsz, conn, pos, sent, lsizeAtConnect, caughtUp, faults, meta, stale, refollows>>
+             /\ UNCHANGED <<llog, flog, fmem, faofsz, conn, pos, sent, lsizeAtConnect, caughtUp, faults, meta, stale, refollows, frozen>>
 \* the stale session receives the next command of its (former) leader
 StaleDeliver ==
   /\ stale.alive /\ stale.next <= Len(olog)
@@ -135,19 +152,22 @@ StaleDeliver ==
      THEN UNCHANGED <<flog, fmem, faofsz>>                   \* followHandleCommand: followc differs -> errNoLongerFollowing
      ELSE /\ fmem' = Apply(fmem, olog[stale.next]) /\ flog' = Append(flog, olog[stale.next])
           /\ faofsz' = faofsz + CmdSz
-  /\ UNCHANGED <<llog, conn, pos, sent, lsizeAtConnect, caughtUp, faults, hist, meta, olog, refollows>>
+  /\ UNCHANGED <<llog, conn, pos, sent, lsizeAtConnect, caughtUp, faults, hist, meta, olog, refollows, frozen>>
 Next == CheckSome \/ RequestAOF \/ Stream \/ ConnDrop \/ FRestart \/ LShrink \/ Refollow \/ StaleDeliver
         \/ \E c \in Cmd : LWrite(c) \/ OWrite(c)
 Spec == Init /\ [][Next]_vars
-View == <<llog, flog, fmem, faofsz, conn, pos, sent, lsizeAtConnect, caughtUp, faults, olog, stale, refollows>>   \* without the history
+View == <<llog, flog, fmem, faofsz, conn, pos, sent, lsizeAtConnect, caughtUp, faults, olog, stale, refollows, frozen>>   \* without the history
 \* liveness: once faults stop and the leader stops writing, the follower reports caught-up
 Fair == WF_vars(CheckSome) /\ WF_vars(RequestAOF) /\ WF_vars(Stream)
 FairSpec == Spec /\ Fair
 EventuallyCaughtUp == <>[](caughtUp \/ ENABLED (ConnDrop \/ FRestart \/ LShrink \/ Refollow \/ StaleDeliver \/ \E c \in Cmd : LWrite(c) \/ OWrite(c)))
 
-Drained == conn = "streaming" /\ (pos \div CmdSz) + sent = Len(llog)
+Drained == conn = "streaming" /\ ~frozen.on /\ (pos \div CmdSz) + sent = Len(llog)
+\* the stream has nothing more to deliver (whatever it reads): with the leader quiescent this is what the follower stays with
+Exhausted == conn = "streaming" /\ (pos \div CmdSz) + sent >= Len(Source)
+CopyWhenQuiescent == (caughtUp /\ Exhausted) => fmem = Replay(0, llog)
 CopyWhenCaughtUp == (caughtUp /\ Drained) => fmem = Replay(0, llog)
 NoEarlyCaughtUp == caughtUp => \E n \in 0..Len(llog) :
                       /\ n * CmdSz >= lsizeAtConnect /\ fmem = Replay(0, SubSeq(llog, 1, n))
-LogIsLeaderPrefix == conn = "streaming" => (IsPrefix(flog, llog) /\ faofsz = Sz(flog))
+LogIsLeaderPrefix == (conn = "streaming" /\ ~frozen.on) => (IsPrefix(flog, llog) /\ faofsz = Sz(flog))
 =============================================================================
